@@ -127,7 +127,7 @@ def klass(line):
     pre, _, post = line.partition(',"res":')
     m = re.match(r'\{"f":"(\w+)","cat":"([^"]*)","a":', pre)
     a = pre[m.end():]
-    for k in (',"d":', ',"tf":', ',"i":', ',"st":', ',"x":', ',"types":'):
+    for k in (',"d":', ',"tf":', ',"i":', ',"st":', ',"x":', ',"types":', ',"pm":'):
         a = a.split(k)[0]
     return (m.group(1), m.group(2), tuple(TAG_RE.findall(a)), post.count('"fn":'))
 
